@@ -6,6 +6,7 @@ import c02
 
 CONFIGS = ['prod']
 EXPLANATION = (
+    "G5.SEM: every function to_uri_path passes a service name / message path through is interpreted on a text of three symbolic characters (every test on a character an oracle explored both ways): the result is a per-character substitution - no character dropped, merged or moved - so names that differ only in punctuation keep different URIs. "
     "SEM, black box (abstract interpretation of the MIR, no code runs): every sequence of up to three Server::add_service / remove_service calls (two services, one re-added "
     "with another instance and fewer messages) is interpreted through the server's own API — ServiceRegistry::add_handler, the key and URI functions as symbolic terms, the "
     "registry state as ServerState::default() gives it — and after every call the lookup the connection handler uses must find, for each (service, message) path, exactly the "
@@ -273,6 +274,10 @@ def check_G4(ctx, facts):
 def check(ctx):
     facts = ctx.facts('prod')
     cg = CallGraph(facts)
+    # G5.SEM: the registry summaries take to_uri_path for an injective term U(service, path); what it applies to a name before formatting
+    # it is interpreted on symbolic text (names_abs): a per-character substitution, nothing dropped, merged or moved
+    import names_abs
+    names_abs.check_names(ctx, facts, 'C13.G5.SEM')
     # SEM: the registry's add / remove / lookup summarised per (service, key) over its finite abstract state (registry_abs);
     # subsumes G1 and G2, which are evaluated only when a construct is not modelled
     import registry_abs
